@@ -811,6 +811,14 @@ def _run(tier, seed):
         except Exception as e:
             r = "harness raised %s" % type(e).__name__
         B.sample({"class": cname, "pre": list(pre), "mech": mech, "post": list(post), "findings": r})
+    # ---- family TM: param.Time objects (bounded/c17_time.py) ---------------------------
+    from bounded import c17_time
+    ntm = c17_time.extend(B, tier, seed)
+    B.bound += ("; FAMILY TM (bounded/c17_time.py): param.Time objects -- pre-histories (set, enter a context, leave it, "
+                "timestep) x deepcopy / every pickle protocol x every post-history (up to 3-4 operations quick, 4-5 "
+                "thorough) of set / enter / exit / timestep%s on the original or the copy, i.e. copies taken outside and "
+                "INSIDE contexts and contexts of original and copy that overlap without nesting; (time, timestep) of both "
+                "sides compared with per-side reference records after every operation" % ("" if tier == "quick" else " / next"))
     res = B.result()
-    res["distinct_nontrivial"] = distinct_cases
+    res["distinct_nontrivial"] = distinct_cases + ntm
     return res
